@@ -44,6 +44,14 @@ func genBinding() {
 	br := src("internal/mode/static/state/graph/backend_refs.go")
 	m.strs("addBackendRefsToRulesBody", br.stmts(br.fn("", "addBackendRefsToRules").Body), "statements of addBackendRefsToRules")
 
+	// policy ancestors of Service-targeting policies (mirrored by lean/NGF/Model/PolicyAttach.lean)
+	po := src("internal/mode/static/state/graph/policies.go")
+	m.strs("attachPoliciesBody", po.stmts(po.fn("Graph", "attachPolicies").Body), "statements of Graph.attachPolicies")
+	m.strs("attachPolicyToServiceBody", po.stmts(po.fn("", "attachPolicyToService").Body), "statements of attachPolicyToService")
+	pa := src("internal/mode/static/state/graph/policy_ancestor.go")
+	m.strs("ancestorsContainsAncestorRefBody", pa.stmts(pa.fn("", "ancestorsContainsAncestorRef").Body),
+		"statements of ancestorsContainsAncestorRef")
+
 	pr := src("internal/mode/static/status/prepare_requests.go")
 	m.strs("prepareRouteRequestsBody", pr.stmts(pr.fn("", "PrepareRouteRequests").Body), "statements of PrepareRouteRequests")
 }
